@@ -34,7 +34,7 @@ NODIST = ['hidden.txt']
 
 
 def files_for(decls):
-    f = sg.source_files()
+    f = sg.source_files(decls)
     f['build.bfg'] = sg.bfg_text(decls) + TRAILER
     f['options.bfg'] = "argument('foo', default='x')\n"
     f['sub/build.bfg'] = "static_library('subl', ['subsrc.c'])\n"
